@@ -15,9 +15,18 @@ def make_overlay(repo, dest, edits):
         shutil.rmtree(dest)
     for d in SRC_DIRS:
         shutil.copytree(os.path.join(repo, d), os.path.join(dest, d))
-    for (rel, old, new) in edits:
+    for ed in edits:
+        (rel, old, new) = ed[:3]
         p = os.path.join(dest, rel)
         s = open(p).read()
+        if len(ed) > 3:
+            # (rel, old, new, (k, n)): the k-th of exactly n occurrences
+            k, n = ed[3]
+            if s.count(old) != n:
+                raise driver.Undecided('canary anchor found %d times in %s (expected %d): %r' % (s.count(old), rel, n, old[:60]))
+            parts = s.split(old)
+            open(p, 'w').write(old.join(parts[:k + 1]) + new + old.join(parts[k + 1:]))
+            continue
         if s.count(old) != 1:
             raise driver.Undecided('canary anchor found %d times in %s: %r' % (s.count(old), rel, old[:60]))
         open(p, 'w').write(s.replace(old, new))
